@@ -1,7 +1,7 @@
 #!/usr/bin/env python3
 """Applies every seeded change to /repo in turn, runs the quick checks of the properties it breaks, reverts, and
 writes /verif/seeded/RESULTS.json + RESULTS.md. Usage: tools/matrix.py [tier] [id-prefix ...]"""
-import json, os, subprocess, sys, time
+import json, os, shutil, subprocess, sys, time
 VERIF='/verif'
 tier = sys.argv[1] if len(sys.argv) > 1 and sys.argv[1] in ('quick','thorough') else 'quick'
 prefixes = [a for a in sys.argv[1:] if a not in ('quick','thorough')]
@@ -9,6 +9,12 @@ results = {}
 out_json = os.path.join(VERIF,'seeded','RESULTS.json')
 if os.path.exists(out_json):
     results = json.load(open(out_json))
+# the checks rewrite /verif/evidence on every run: keep the files written on the unchanged tree and put them back afterwards
+EV=os.path.join(VERIF,'evidence'); EVB=os.path.join(VERIF,'target','evidence-backup')
+shutil.rmtree(EVB, ignore_errors=True); shutil.copytree(EV, EVB)
+def restore_evidence():
+    for f in os.listdir(EVB):
+        shutil.copy(os.path.join(EVB,f), os.path.join(EV,f))
 def sh(cmd, **kw):
     return subprocess.run(cmd, shell=True, stdout=subprocess.PIPE, stderr=subprocess.STDOUT, text=True, **kw)
 assert sh('git -C /repo status --porcelain -- src').stdout.strip()=='' , '/repo dirty'
@@ -32,7 +38,7 @@ for name in sorted(os.listdir(os.path.join(VERIF,'seeded'))):
             results.setdefault(name,{})[p] = {'tier': tier, 'exit': r.returncode, 'detected': r.returncode==1 and bool(viol), 'signatures': sigs[:3], 'wall_s': round(time.time()-t0,1)}
             print(name, p, 'exit', r.returncode, sigs[:1], flush=True)
     finally:
-        sh('git -C /repo checkout -- .')
+        sh('git -C /repo checkout -- .'); restore_evidence()
     json.dump(results, open(out_json,'w'), indent=1, sort_keys=True)
 # markdown
 with open(os.path.join(VERIF,'seeded','RESULTS.md'),'w') as f:
